@@ -224,8 +224,8 @@ func (f *Fixture) SymCC(hostport string) Sym {
 }
 
 func SymData(payload []byte) Sym { return Sym{Kind: "DATA", Payload: payload, Wire: Data(payload)} }
-func SymKA() Sym                  { return Sym{Kind: "KA", Wire: Keepalive()} }
-func SymClose() Sym               { return Sym{Kind: "CLOSE", Wire: CloseChannel(0)} }
+func SymKA() Sym                 { return Sym{Kind: "KA", Wire: Keepalive()} }
+func SymClose() Sym              { return Sym{Kind: "CLOSE", Wire: CloseChannel(0)} }
 func SymUnk(t uint16) Sym {
 	return Sym{Kind: "UNK", Type: t, Wire: Packet(t, []byte{1, 2, 3, 4, 5, 6, 7, 8})}
 }
